@@ -138,3 +138,121 @@ Proof.
                  | right; right; left; split; [reflexivity|]; split; [reflexivity|]; split; [reflexivity|]; split; [f_equal; f_equal; lia|]; left; split; reflexivity
                  | right; right; right; split; [reflexivity|]; split; [reflexivity|]; split; [reflexivity|]; split; [f_equal; lia | reflexivity] ] ] ]).
 Qed.
+
+Lemma with_dim_sdim h dim j : sdim (with_dim h dim j) = sdim h.
+Proof. unfold with_dim, with_shape. destruct (set_nth dim j (shape h)); reflexivity. Qed.
+
+Section WithV.
+  Context {V : Type} (veqb : V -> V -> bool) (vnone : V).
+  Hypothesis veqb_refl : forall v, veqb v v = true.
+
+  Notation kst := (kst V).
+  Notation ext := (ext V).
+  Notation kvalid := (@kvalid V).
+  Notation knondeg := (@knondeg V).
+  Notation knd := (@knd V).
+
+  (** every other input has the shape and slice dimension of the first, and a valid nondegenerate state for the key *)
+  Definition others_ok (h0 : hdr) (others : list (hdr * kst)) : Prop :=
+    forall ho ko, In (ho, ko) others ->
+      shape ho = shape h0 /\ sdim ho = sdim h0 /\ kvalid ho ko /\ knondeg ho ko.
+
+  Lemma insert_all_k_inv h0 hfull dim n : merge_facts h0 hfull dim n ->
+    forall others j ks r, 1 <= j -> others_ok h0 others ->
+      kvalid (with_dim hfull dim j) ks -> knd (with_dim hfull dim j) ks ->
+      insert_all_k veqb vnone hfull dim j others ks = Ok r ->
+      kvalid (with_dim hfull dim (j + length others)) r /\ knd (with_dim hfull dim (j + length others)) r.
+  Proof.
+    intros MF. induction others as [|[ho ko] rest IH]; intros j ks r Hj Hoth Hk Hn H; cbn [insert_all_k] in H.
+    - injection H as <-. cbn [length]. rewrite Nat.add_0_r. split; assumption.
+    - apply bind_ok in H as [ks' [Hins H]].
+      destruct (Hoth ho ko (or_introl eq_refl)) as [Hsh [Hsd [Hko Hndo]]].
+      pose proof (mf_step _ _ _ _ MF j ho Hj Hsh Hsd) as SF.
+      destruct (insert_k_inv veqb vnone _ _ _ _ SF ks ko ks' Hk Hn Hko Hndo Hins) as [Hk' Hn'].
+      cbn [length]. replace (j + S (length rest)) with (S j + length rest) by lia.
+      apply (IH (S j) ks' r); [lia | intros ho' ko' Hin; apply Hoth; right; exact Hin | exact Hk' | exact Hn' | exact H].
+  Qed.
+
+  (** the whole merge for one key *)
+  Lemma merge_k_valid h0 hfull dim (k0 : kst) (others : list (hdr * kst)) r :
+    merge_facts h0 hfull dim (S (length others)) ->
+    kvalid h0 k0 -> knondeg h0 k0 -> others_ok h0 others ->
+    merge_k veqb vnone hfull dim ((h0, k0) :: others) = Ok r -> kvalid hfull r /\ knondeg hfull r.
+  Proof.
+    intros MF Hk0 Hn0 Hoth H. cbn [merge_k] in H. apply bind_ok in H as [ks [Hall H]].
+    assert (Hinit : kvalid (with_dim hfull dim 1) (init_k hfull h0 k0) /\ knd (with_dim hfull dim 1) (init_k hfull h0 k0)).
+    { unfold init_k. destruct k0 as [[c vs]|]; [|split; exact I]. rewrite (visible_kvalid _ _ _ Hk0).
+      destruct (is_slices c && negb (use_slices hfull h0)); [split; exact I|].
+      destruct Hk0 as [Hok [Hs Hl]]. split.
+      - split; [apply (mf_first_cls _ _ _ _ MF); exact Hok|].
+        split; [rewrite with_dim_sdim, (mf_sd _ _ _ _ MF); exact Hs | rewrite (mf_first_dims _ _ _ _ MF); exact Hl].
+      - cbn [ProofsValidInsert.knd]. rewrite (mf_first_dims _ _ _ _ MF). intros Hc _. apply Hn0. exact Hc. }
+    destruct Hinit as [Hki Hni].
+    destruct (insert_all_k_inv h0 hfull dim _ MF others 1 _ ks (le_n 1) Hoth Hki Hni Hall) as [Hk Hn].
+    replace (1 + length others) with (S (length others)) in Hk, Hn by lia.
+    rewrite (mf_last _ _ _ _ MF) in Hk, Hn.
+    assert (Hvis : visible hfull ks = ks).
+    { destruct ks as [[c vs]|]; [apply visible_kvalid; exact Hk | reflexivity]. }
+    rewrite Hvis in H.
+    assert (Hplain : r = ks -> (forall vs, ks <> Some (GSlices, vs)) -> kvalid hfull r /\ knondeg hfull r).
+    { intros -> Hng. split; [exact Hk|]. destruct ks as [[c vs]|]; [|exact I].
+      cbn [ProofsValidBase.knondeg]. intros Hc. apply Hn; [exact Hc|]. intros ->. apply (Hng vs). reflexivity. }
+    destruct ks as [[c vs]|]; [|apply Hplain; [injection H as <-; reflexivity | discriminate]].
+    destruct c; try (apply Hplain; [injection H as <-; reflexivity | intros vs' Hx; discriminate Hx]).
+    apply (simplify_k_valid veqb vnone veqb_refl hfull _ r (mf_shape_wf _ _ _ _ MF) (mf_tight _ _ _ _ MF) Hk); [|exact H].
+    intros c0 vs0 Heq. injection Heq as <- <-. intros Hx. discriminate Hx.
+  Qed.
+
+  (** * The whole extension *)
+
+  (** merge domain: all inputs have the shape and the slice dimension of the first one, and the
+      [slice_dim] argument (when given) is that slice dimension *)
+  Definition merge_dom (es : list ext) (slice_dim : option nat) : Prop :=
+    match es with
+    | [] => False
+    | e0 :: _ =>
+        res_sdim slice_dim (hdr_of e0) = sdim (hdr_of e0) /\
+        forall e, In e es -> shape (hdr_of e) = shape (hdr_of e0) /\ sdim (hdr_of e) = sdim (hdr_of e0)
+    end.
+
+  Theorem from_sequence_valid (es : list ext) dim affine slice_dim (r : ext) :
+    (forall e, In e es -> valid e /\ nondegenerate e) -> merge_dom es slice_dim ->
+    from_sequence veqb vnone es dim affine slice_dim = Ok r -> valid r /\ nondegenerate r.
+  Proof.
+    intros Hall Hdom H. destruct es as [|e0 rest]; [destruct Hdom|]. destruct Hdom as [Hrs Hgeo].
+    unfold from_sequence in H. apply bind_ok in H as [hfull [Hh H]]. apply bind_ok in H as [ents [Hents H]].
+    injection H as <-. cbn [map] in Hh.
+    pose proof (hdr_wf_shape_wf _ (proj1 (proj1 (Hall e0 (or_introl eq_refl))))) as Hwf0.
+    pose proof (merge_geometry _ _ _ _ _ _ Hh Hwf0 Hrs) as MF. rewrite map_length in MF.
+    assert (Hk : forall k x, In (k, x) ents -> kvalid hfull (Some x) /\ knondeg hfull (Some x)).
+    { intros k x Hin. destruct (map_keys_In _ _ _ _ _ Hents Hin) as [_ Hf]. cbn [map] in Hf.
+      apply (merge_k_valid (hdr_of e0) hfull dim (lookup_e e0 k) (map (fun e : ext => (hdr_of e, lookup_e e k)) rest) (Some x)); [| | | |exact Hf].
+      - rewrite map_length. exact MF.
+      - apply valid_kvalid. apply (Hall e0). left; reflexivity.
+      - apply nondegenerate_knondeg. apply (Hall e0). left; reflexivity.
+      - intros ho ko Hin'. apply in_map_iff in Hin' as [e [Heq He]]. injection Heq as <- <-.
+        destruct (Hgeo e (or_intror He)) as [H1 H2]. destruct (Hall e (or_intror He)) as [Hv Hn].
+        split; [exact H1|]. split; [exact H2|]. split; [apply valid_kvalid; exact Hv | apply nondegenerate_knondeg; exact Hn]. }
+    split.
+    - apply valid_of_kvalid; cbn [hdr_of entries keys_e].
+      + destruct (merge_hdr_inv _ _ _ _ _ _ Hh) as [_ [_ [[osh [_ Hmk]] _]]].
+        apply (make_empty_hdr_wf _ _ _ _ Hmk).
+        apply make_empty_hdr_ok in Hmk as [Hs _]. rewrite <- Hs. apply (mf_shape_wf _ _ _ _ MF).
+      + apply (map_keys_NoDup _ _ _ Hents). apply dedup_keys_NoDup.
+      + intros k x Hin. apply (Hk k x Hin).
+    - apply nondegenerate_of_knondeg. cbn [hdr_of entries]. intros k x Hin. apply (Hk k x Hin).
+  Qed.
+
+  (** shape book-keeping of a merge (no validity hypotheses needed) *)
+  Theorem from_sequence_shape (e0 : ext) (rest : list ext) dim affine slice_dim (r : ext) :
+    from_sequence veqb vnone (e0 :: rest) dim affine slice_dim = Ok r ->
+    set_nth dim (S (length rest)) (pad_to (S dim) (shape (hdr_of e0))) = Some (shape (hdr_of r)) /\
+    sdim (hdr_of r) = match slice_dim with Some d => Some d | None => sdim (hdr_of e0) end /\
+    aff (hdr_of r) = match affine with Some a => a | None => aff (hdr_of e0) end.
+  Proof.
+    intros H. unfold from_sequence in H. apply bind_ok in H as [hfull [Hh H]]. apply bind_ok in H as [ents [_ H]].
+    injection H as <-. cbn [hdr_of map] in *.
+    destruct (merge_hdr_inv _ _ _ _ _ _ Hh) as [_ [_ [[osh [Eosh Hmk]] _]]]. rewrite map_length in Eosh.
+    apply make_empty_hdr_ok in Hmk as [Hs [Hsd [Ha _]]]. rewrite Hs. repeat split; assumption.
+  Qed.
+End WithV.
